@@ -389,8 +389,13 @@ def judge_history(dc, hist, streams, cfgdesc):
                 fnd('reply is not the next entries of the directory after offset %d' % rec['off'], rec, {'class': 'not-next-entries'},
                     got=[e['name'].hex() for e in rec['ents'][:5]], want=[o[i][0].hex() for i in vis[:5]])
             elif vis and not rec['ents'] and rec['size'] >= fuse_size(o[vis[0]][0], rec['plus']):
-                b = fetch_mirror(o, dc.cookie_idx, k, rec['size'], rec['off'])
-                if b == 'EINVAL': b = []
+                # the batch is what getdents64 returns from the resume point (cache hit / lseek) or what the
+                # linear scan leaves (offset above i64::MAX without a cache hit)
+                cands = [model_batch(o, k, rec['size'])]
+                if rec['off'] > I64_MAX:
+                    m = fetch_mirror(o, dc.cookie_idx, k, rec['size'], rec['off'])
+                    if m != 'EINVAL': cands.append(m)
+                b = next((c for c in cands if c and all(is_dot(o[i][0]) for i in c)), cands[-1])
                 cls = 'dots-only-batch' if b and all(is_dot(o[i][0]) for i in b) else 'other'
                 fnd('empty reply (end of directory) although %d entries remain and size %d admits the next one (%d bytes); host batch: %s'
                     % (len(vis), rec['size'], fuse_size(o[vis[0]][0], rec['plus']), [o[i][0].decode(errors='replace') for i in b][:4]),
@@ -424,6 +429,37 @@ def check_plus_refs(cl, plus_refs, root_children, F, cfgdesc):
             F.append({'what': 'readdirplus delivered node %d %d times but it holds more references (leak)' % (nodeid, cnt),
                       'input': {'config': cfgdesc}, 'sig': {'class': 'plus-refs-too-many'}})
     plus_refs.clear()
+    return n
+
+def probe_tight_buffer(cl, nodeid, fh, dc, F, cfgdesc):
+    """reply buffers of size .. size+15 bytes pass the server's `available_bytes < size` test although the 16-byte
+    header has to fit as well: the reply must still be well-formed and readdirplus must not keep references of
+    entries it did not deliver"""
+    n = 0
+    vis = [dc.oracle[i] for i in dc.visible]
+    if len(vis) < 2: return 0
+    for plus in (False, True):
+        for extra in (0, 8, 15):
+            size = sum(fuse_size(e[0], plus) for e in vis[:2])
+            r = cl.readdir(nodeid, fh, size, 0, plus, extra=extra); n += 1
+            rec = {'fh': fh, 'size': size, 'off': 0, 'plus': plus}
+            bad = None; got = []
+            if not isinstance(r, tuple): bad = 'no reply / panic'
+            elif r[0] == 0:
+                try: got = decode_dirents(r[1], plus)
+                except ValueError as ex: bad = 'reply of %d bytes is not a sequence of whole entries (%s)' % (len(r[1]), ex)
+            leaked = []
+            if plus:
+                for e in vis:
+                    err, ent = cl.lookup(nodeid, e[0])
+                    if err: continue
+                    cl.forget(ent['nodeid'], 1 + sum(1 for g in got if g['name'] == e[0]))
+                    if cl.getattr(ent['nodeid'])[0] == 0:
+                        leaked.append(e[0].decode(errors='replace')); cl.forget(ent['nodeid'], 1)
+            if bad or leaked:
+                F.append({'what': 'reply buffer of size+%d bytes (size %d, %s): %s%s' % (extra, size, 'readdirplus' if plus else 'readdir', bad or 'reply ok',
+                                                                                     '; references kept for undelivered entries %s' % leaked if leaked else ''),
+                          'input': {'dir': dc.label, 'config': cfgdesc, 'request': rec, 'reply_buffer': size + extra}, 'sig': {'class': 'tight-buffer'}})
     return n
 
 def check_no_stray_refs(cl, dirnode, dc, F, cfgdesc, limit=400):
@@ -541,7 +577,7 @@ def stream_set(rng, dc, fhs, quick):
     if dc.pols: pols = ['fit_all', 'fit_all', 'fit_all', 'safe_min']
     starts = [0]
     if n > 2: starts += [dc.oracle[rng.randrange(n)][2] for _ in range(2)] + [dc.oracle[-1][2], dc.oracle[max(0, n - 2)][2]]
-    if quick and n > 1000: starts = starts[:3]
+    if quick: starts = starts[:2] + starts[3:4]
     for plus in (False, True):
         for st in starts:
             pol = rng.choice(pols)
@@ -607,7 +643,7 @@ def run_check(tier, seed):
                         if err: raise FuseError('lookup %r -> %d' % (comp, err))
                         base = ent['nodeid']
                     for dc in dcs:
-                        if quick and kind == 'vfs' and dc.name in ('e3000', 'e300'): continue
+                        if quick and kind == 'vfs' and dc.name not in ('e0', 'e3', 'e9', 'e40'): continue
                         err, ent = cl.lookup(base, dc.name.encode())
                         if err: raise FuseError('lookup dir %s -> %d' % (dc.name, err))
                         nodeid = ent['nodeid']
@@ -626,7 +662,7 @@ def run_check(tier, seed):
                                     err, fh = cl.opendir(nodeid)
                                     if err: raise FuseError('opendir -> %d' % err)
                                     fhs.append(fh)
-                            hist = run_history(cl, rng, dc, nodeid, fhs, ss, noise, plus_refs, max_reqs=(400 if len(dc.oracle) < 1000 or not quick else 160))
+                            hist = run_history(cl, rng, dc, nodeid, fhs, ss, noise, plus_refs, max_reqs=(400 if not quick else (250 if len(dc.oracle) < 1000 else 160)))
                             evals += len(hist)
                             F = judge_history(dc, hist, ss, cfgdesc)
                             findings += F
@@ -646,6 +682,8 @@ def run_check(tier, seed):
                         if len(dc.oracle) <= 400:
                             evals += check_plus_refs(cl, plus_refs, None, findings, cfgdesc)
                             evals += check_no_stray_refs(cl, nodeid, dc, findings, cfgdesc)
+                        if dc.name == 'e9' and kind == 'passthrough' and not noopendir:
+                            evals += probe_tight_buffer(cl, nodeid, fhs[0], dc, findings, cfgdesc)
                     if kind == 'vfs':
                         fp, bp, n = pseudo_cases(cl, rng, cfgdesc, exprs, expr_meta)
                         findings += fp; broken += bp; evals += n
@@ -666,7 +704,8 @@ def run_check(tier, seed):
             hdr = COQ_HEADER
             for dn in sorted(set(exprs[i][0] for i in idx)):
                 if dn in headers: hdr += 'Definition %s : list hent := %s.\n' % (dn, coq_dir(headers[dn].oracle))
-            per = max(3, (len(idx) + 3) // 4) if g != 'small' else max(20, (len(idx) + 7) // 8)
+            big = g in headers and len(headers[g].oracle) > 1000
+            per = (max(3, (len(idx) + 1) // 2) if big else max(3, (len(idx) + 3) // 4)) if g != 'small' else max(20, (len(idx) + 7) // 8)
             t1 = time.time()
             fails, errs = coq_check_cases('c16_' + g, hdr, [exprs[i][1] for i in idx], shard=per, timeout=900)
             log('C16:   %s: %d histories %.1fs' % (g, len(idx), time.time() - t1))
